@@ -31,5 +31,5 @@ def run(c):
     c.run_m('h_c04_content', expect_checks=(420, 421, 422, 423), expect_cover=(420,), diff_samples=6,
             bounds={'elseif branches': '0..3', 'else': 'with/without', 'elements per branch': '1..2', 'foreach after the if': 'with/without'})
     c.run_m('h_c04_descr', expect_checks=(430,), expect_cover=(430,), diff_samples=6, bounds={'spellings': "e, e., e.*, e.*., padded list, *"})
-    c.run_m('h_c04_elems', expect_checks=(440, 441, 442, 443, 444, 445, 446, 447, 448, 449, 450), expect_cover=(440,), diff_samples=8,
+    c.run_m('h_c04_elems', expect_checks=(440, 441, 442, 443, 444, 445, 446, 447, 448, 449, 450, 451), expect_cover=(440,), diff_samples=8,
             bounds={'prefix': 2, 'quotes': 2, 'comments': 2, 'payload': 'params / content expr / content text', 'data form': 'expr / text / empty', 'send form': 'literal / expr', 'autoforward': 2})
